@@ -161,14 +161,19 @@ class LGen:
                     items.append(sc["ref"] + ".*"); out += list(sc["cols"]); self.tags.add("risky:aliased-wildcard")
                     n_items = max(n_items, len(out))
                     continue
-            if self.want("anonymous-aggregate", 0.4):
-                al = self.fresh("n"); items.append(self.ch(["COUNT(1)", "SUM(1)", "COUNT('x')"]) + " AS " + al); out.append((al, frozenset())); self.tags.add("risky:anonymous-aggregate")
+            if not no_star and self.want("anonymous-aggregate", 0.4):      # not in a UNION branch: there it would read the tables of all branches (F-C16-7)
+                # an aggregate without column argument depends on the upstream tables as a whole: (schema, table, None)
+                tabs = frozenset((x[0], x[1], None) for sc in scope for _, srcs in sc["cols"] for x in srcs)
+                al = self.fresh("n"); items.append(self.ch(["COUNT(1)", "SUM(1)", "COUNT('x')"]) + " AS " + al); out.append((al, tabs)); self.tags.add("risky:anonymous-aggregate")
                 continue
-            if d == 0 and len(scope) > 1 and self.want("count-star-join", 0.4):
-                al = self.fresh("n"); items.append("COUNT(*) AS " + al); out.append((al, None)); self.tags.add("risky:count-star-join")
+            if d == 0 and not no_star and len(scope) > 1 and self.want("count-star-join", 0.4):
+                # COUNT(*) reads every column of every table in scope
+                every = frozenset(x for sc in scope for _, srcs in sc["cols"] for x in srcs)
+                al = self.fresh("n"); items.append("COUNT(*) AS " + al); out.append((al, every)); self.tags.add("risky:count-star-join")
                 continue
-            if self.want("dialect-variable", 0.4):
-                items.append(self.ch(["CURRENT_DATE", "CURRENT_TIMESTAMP"])); out.append((None, frozenset())); self.tags.add("risky:dialect-variable")
+            if d == 0 and self.want("dialect-variable", 0.4):
+                v = self.ch(["CURRENT_DATE", "CURRENT_TIMESTAMP"])
+                items.append(v); out.append((v, frozenset())); self.tags.add("risky:dialect-variable")
                 continue
             if d < self.maxdepth and self.want("scalar-subquery", 0.4):
                 sub = LGen(self.r, None, 0); sub.tables = self.tables; sub.k = self.k + 500
@@ -334,7 +339,7 @@ def req(c):
 
 EMPTY_SCHEMA = "schema-empty-string"
 # one root cause, several visible outcomes
-CANON = {"derived-alias-reused:PY-KeyError": "derived-alias-reused:stale-store", "derived-alias-reused:sources": "derived-alias-reused:stale-store",
+CANON = {"derived-alias-reused:ANALYZER": "derived-alias-reused:stale-store", "derived-alias-reused:sources": "derived-alias-reused:stale-store",
          "derived-alias-reused:output-column": "derived-alias-reused:stale-store",
          "duplicate-output-name:output-column": "duplicate-output-name:collapsed", "duplicate-output-name:sources": "duplicate-output-name:collapsed",
          "union-unqualified:ANALYZER": "union-unqualified:one-scope", "union-unqualified:sources": "union-unqualified:one-scope",
